@@ -170,7 +170,7 @@ def arithN : Arith Nat :=
 
 -- non-vacuity of `fixed_frame_bulk`: "b" fixed, "a" free
 example : ∃ s : State Nat, cellOf s "b" = some 1 ∧ FixedCell s 1 ∧ s.trainable = ["a"] :=
-  ⟨run arithN ⟨false, false⟩ (State.empty 0 true) [.addReal "a" 1 true true, .addReal "b" 2 true false],
+  ⟨run arithN ⟨false, false, false, false⟩ (State.empty 0 true) [.addReal "a" 1 true true, .addReal "b" 2 true false],
    by decide +kernel, by unfold FixedCell; decide +kernel, by decide +kernel⟩
 
 /-- a history with real ties, a complex tie chain and a shared radius that merges groups -/
@@ -181,13 +181,13 @@ def namedHistory : List (Op Nat) :=
    .setSame ["p", "q"] true, .setSame ["u", "q"] true, .setShareR ["p", "u"], .setAllList [1, 2, 3] false]
 
 -- non-vacuity of `inv_reachable_patched`: the hypotheses hold for `namedHistory`
-example : WellPhased namedHistory ∧ WellNamed arithN ⟨true, true⟩ (State.empty 0 true) namedHistory := by
+example : WellPhased namedHistory ∧ WellNamed arithN ⟨true, true, false, false⟩ (State.empty 0 true) namedHistory := by
   unfold WellPhased WellNamed; decide +kernel
 
 -- non-vacuity of `set_same_ties_patched`: a reachable state with two groups, and a call that merges them
 example : ∃ s : State Nat, InvF s ∧ s.same.length = 2 ∧ tieOK s (.setSame ["b", "d"] false) = true :=
-  ⟨run arithN ⟨true, true⟩ (State.empty 0 true) (namedHistory.take 10),
-   inv_reachable_patched arithN ⟨true, true⟩ rfl 0 true _ (by unfold WellPhased; decide +kernel)
+  ⟨run arithN ⟨true, true, false, false⟩ (State.empty 0 true) (namedHistory.take 10),
+   inv_reachable_patched arithN ⟨true, true, false, false⟩ rfl 0 true _ (by unfold WellPhased; decide +kernel)
      (by unfold WellNamed; decide +kernel), by decide +kernel, by decide +kernel⟩
 
 /-- **`WellNamed` is needed**: with a real variable `a` and a complex parameter `a` (`ar`, `ai`), a real tie of `a`
@@ -197,8 +197,8 @@ theorem well_named_needed :
     let ops : List (Op Nat) :=
       [.addReal "a" 1 true true, .addComplex "a" none true 2 3, .addReal "x" 4 true true, .addComplex "x" none true 5 6,
        .addComplex "b" none true 7 8, .setSame ["a", "x"] false, .setSame ["a", "b"] true]
-    let s := run arithN ⟨true, true⟩ (State.empty 0 true) ops
-    wellPhasedFrom 0 ops = true ∧ wellNamedFrom arithN ⟨true, true⟩ (State.empty 0 true) ops = false ∧
+    let s := run arithN ⟨true, true, false, false⟩ (State.empty 0 true) ops
+    wellPhasedFrom 0 ops = true ∧ wellNamedFrom arithN ⟨true, true, false, false⟩ (State.empty 0 true) ops = false ∧
       "ar" ∈ s.trainable ∧ "xr" ∈ s.trainable ∧ cellOf s "ar" = cellOf s "xr" := by
   decide +kernel
 
@@ -209,13 +209,13 @@ def mergeHistory : List (Op Nat) :=
 /-- **Finding (unchanged tree)**: merging two existing tie groups leaves the follower of the second group bound to
 its old object — `d` is listed in the same group as `a` but is a different variable. -/
 theorem merge_two_groups_unfixed_breaks_tie :
-    let s := run arithN ⟨false, false⟩ (State.empty 0 true) mergeHistory
+    let s := run arithN ⟨false, false, false, false⟩ (State.empty 0 true) mergeHistory
     s.same = [["b", "d", "a", "c"]] ∧ cellOf s "d" ≠ cellOf s "a" := by
   decide +kernel
 
 /-- the same history with the patched `set_same`: all four names are bound to one object, one free parameter -/
 theorem merge_two_groups_fixed_ties :
-    let s := run arithN ⟨true, false⟩ (State.empty 0 true) mergeHistory
+    let s := run arithN ⟨true, false, false, false⟩ (State.empty 0 true) mergeHistory
     cellOf s "d" = cellOf s "a" ∧ cellOf s "c" = cellOf s "a" ∧ cellOf s "b" = cellOf s "a" ∧ s.trainable = ["a"] := by
   decide +kernel
 
@@ -228,9 +228,9 @@ theorem getall_setall_id (A : Arith V) (cfg : Cfg) (s : State V) (hm : s.mask = 
 
 /-- the excluded branch: under an active mask the read-back writes the (float32-cast) mask value into the variable -/
 theorem getall_setall_under_mask_writes_mask :
-    let s := (step arithN ⟨false, false⟩ (run arithN ⟨false, false⟩ (State.empty 0 true) [.addReal "a" 1 true true])
+    let s := (step arithN ⟨false, false, false, false⟩ (run arithN ⟨false, false, false, false⟩ (State.empty 0 true) [.addReal "a" 1 true true])
                 (.maskEnter [("a", 5)])).1
-    readN s "a" = some 1 ∧ readN (step arithN ⟨false, false⟩ s (.setAllDict (getAllDic arithN s false) false)).1 "a" = some 5 := by
+    readN s "a" = some 1 ∧ readN (step arithN ⟨false, false, false, false⟩ s (.setAllDict (getAllDic arithN s false) false)).1 "a" = some 5 := by
   decide +kernel
 
 /-! ## Part 2: value arithmetic over ℝ -/
